@@ -1,8 +1,7 @@
 import Bcder.Props.C13
-open Bcder.Props.C13
-#print axioms write_eq_spec
-#print axioms write_len
-#print axioms written_minimal
-#print axioms read_write
-#print axioms read_eq_spec
-#print axioms total_len
+#print axioms Bcder.Props.C13.write_eq_spec
+#print axioms Bcder.Props.C13.write_len
+#print axioms Bcder.Props.C13.written_minimal
+#print axioms Bcder.Props.C13.read_write
+#print axioms Bcder.Props.C13.read_eq_spec
+#print axioms Bcder.Props.C13.total_len
